@@ -394,6 +394,20 @@ class Interp(object):
                     env[n.targets[0].id] = ast.literal_eval(n.value)
                 except Exception:
                     pass
+            elif isinstance(n, ast.ImportFrom) and n.module and \
+                    n.module.startswith('odl.') and n.level == 0:
+                # literal module-level constants imported from another
+                # module of the repository
+                rel2 = n.module.replace('.', '/') + '.py'
+                try:
+                    self.model.ctx.tree(rel2)
+                except Exception:
+                    continue
+                env2 = self.env_of(rel2)
+                for a in n.names:
+                    v = env2.get(a.name, self)
+                    if v is not self and not isinstance(v, (Func, ClassV)):
+                        env.setdefault(a.asname or a.name, v)
         env['__rel__'] = rel
         return env
 
@@ -757,6 +771,10 @@ class Interp(object):
         if obj is NPV:
             return self.np_attr(name)
         if isinstance(obj, ModuleV):
+            if obj.name == 'builtins' and name in _PY_BUILTINS and \
+                    name != 'isinstance':
+                return Builtin(name, lambda *a, **k: self.py_builtin(
+                    name, list(a), k, None, None, None))
             return ModuleV(obj.name + '.' + name)
         if isinstance(obj, ClassV):
             dc, m = self.model.lookup(obj.ci, name)
